@@ -44,7 +44,9 @@ def gen_hist(rng, maxops):
             ncomp += 1
     cm = g.gen_comments(rng)
     init = "-" if rng.random() < 0.5 else g.show_comp([] if rng.random() < 0.5 else [(0xC3, b"\x02")], b"\x01\x02", 2, False)
-    blocks = rng.choice(["-", "-", "c", "e0", "u0102030405060708:3", "e1,c"])
+    # blocks of a file that was read back without the matching decryptors are opaque blocks WITH the tag of a known kind
+    blocks = rng.choice(["-", "-", "c", "e0", "u0102030405060708:3", "e1,c", "x2:0a0b0c", "c,x2:00", "x1:ff,x3:0102", "x3:aa,u0102030405060708:9",
+                         "x127:00,x2:11"])
     return f"{cm} {init} {blocks} {'/'.join(ops)}"
 
 
